@@ -61,6 +61,9 @@ func c12Corpus(thorough bool) []c12Val {
 		{"12:00:00+00", ".time_tz()"}, {"13:00:00+01", ".time_tz()"}, {"12:00:00+01", ".time_tz()"},
 		{"2015-08-02T00:00:00", ".timestamp()"}, {"2015-08-02T12:00:00", ".timestamp()"},
 		{"2015-08-02T00:00:00+00:00", ".timestamp_tz()"}, {"2015-08-02T01:00:00+01:00", ".timestamp_tz()"}, {"2015-08-01T20:00:00-04:00", ".timestamp_tz()"},
+		// the ends of the supported range and the instants where a 64-bit nanosecond count wraps
+		{"0001-01-01T00:00:00+00:00", ".timestamp_tz()"}, {"9999-12-31T23:59:59+00:00", ".timestamp_tz()"}, {"1677-09-21T00:12:43+00:00", ".timestamp_tz()"},
+		{"2262-04-11T23:47:17+00:00", ".timestamp_tz()"}, {"0001-01-01", ".date()"}, {"9999-12-31", ".date()"}, {"9999-12-31T23:59:59.999999", ".timestamp()"}, {"0001-01-01T00:00:00", ".timestamp()"},
 	}
 	for _, d := range dts {
 		add("s:"+d.s, d.m, "")
@@ -68,6 +71,10 @@ func c12Corpus(thorough bool) []c12Val {
 	add("j:[]", "", "")
 	add("j:[1]", "", "")
 	add("j:[1,2]", "", "")
+	add("j:[[1]]", "", "") // a singleton array inside an array: still an array after one level of lax unwrapping
+	add(`j:[["a"]]`, "", "")
+	add("j:[[null]]", "", "")
+	add("j:[[]]", "", "")
 	add("j:{}", "", "")
 	add(`j:{"a":1}`, "", "")
 	if thorough {
